@@ -1454,11 +1454,13 @@ class PathExplorer:
                 del env[key]
         return env
 
-    def run(self, srcs, targets, avoid=()):
-        """returns list of (target_node, facts_dict, path) for every distinct (target, facts) reached"""
+    def run(self, srcs, targets, avoid=(), waypoints=()):
+        """returns list of (target_node, facts_dict, path) for every distinct (target, facts) reached.
+        `waypoints`: nodes whose passage is remembered per path as fact ('W', node) -> 1."""
         b = self.b
         targets = set(targets)
         avoid = set(avoid)
+        waypoints = set(waypoints)
         results = {}
         start_env = {}
         seen = set()
@@ -1476,6 +1478,9 @@ class PathExplorer:
                 break
             if node in avoid:
                 continue
+            if node in waypoints and ("F", ("W", node)) not in env:
+                env = dict(env)
+                env[("F", ("W", node))] = 1
             if node in targets:
                 facts = {k[1]: v for k, v in env.items() if k[0] == "F"}
                 key = (node, frozenset(facts.items()))
